@@ -140,6 +140,8 @@ mutual
     | .next vars p, st =>
         (match vars, st with
          | .mk par [], v :: st' => (.next (.mk par [v]) p, st')
+         | .mk par [], [] => (.next (.mk par []) p, [])
+         | .mk par es, st' => (.next (.mk par es) p, st'.drop es.length)   -- a named NEXT closes that many loops
          | vs, st' => (.next vs p, st'))
     | s, st => (s, st)
   def nextPatchList : List Stmt → List Expr → List Stmt × List Expr
